@@ -16,6 +16,7 @@ package eng
 //	ef <rid> upload <origin hex> <applied> <note>
 //	resp <rid> <status|dead> <payload>
 //	ct <t> <root> <n> <old root> <proof> <0|1>          function mode: tlog.CheckTree
+//	cr <t> <root> <n> <leaf hash> <proof> <0|1>         function mode: tlog.CheckRecord
 //
 // <note> is "M:<first line hex>" or "W:<text hex>:<name hex>.<key hash>.<who>;…" where <who> is
 // the id of the registry key that accepts the line over the note text (x: none). Everything
@@ -1333,6 +1334,42 @@ func witnessCheckTreeLines(tr *Trace, st *Stats, r *Rand, sizes []int) {
 		}
 		emit(t, a.root(t), 0, witnessMTH(nil), nil, "n=0")
 		emit(t, a.root(t), t+1, a.root(t), nil, "n>t")
+	}
+	// tlog.CheckRecord (inclusion proofs; the same Merkle library, wanted by the client property)
+	emitR := func(t int, th [32]byte, n int, h [32]byte, p []tlog.Hash, kind string) {
+		err := tlog.CheckRecord(p, int64(t), tlog.Hash(th), int64(n), tlog.Hash(h))
+		var hs [][32]byte
+		for _, x := range p {
+			hs = append(hs, [32]byte(x))
+		}
+		tr.Line("cr %d %x %d %x %s %d", t, th, n, h, witnessHashList(hs), witnessB2I(err == nil))
+		st.Count("checkrecord:" + kind + ":" + strconv.FormatBool(err == nil))
+		st.Eval(fmt.Sprintf("cr|%d|%d|%s", t, n, kind), true)
+	}
+	for _, t := range sizes {
+		for n := 0; n < t; n++ {
+			if t > 48 && !(n <= 1 || n >= t-2 || n == t/2 || r.Chance(3)) {
+				continue
+			}
+			p, err := tlog.ProveRecord(int64(t), int64(n), a)
+			if err != nil {
+				panic(err)
+			}
+			emitR(t, a.root(t), n, a.leaves[n], p, "right")
+			emitR(t, a.root(t), n, b.leaves[t], p, "wrong-leaf")
+			emitR(t, b.root(t+1), n, a.leaves[n], p, "wrong-root")
+			if len(p) > 0 {
+				q := append([]tlog.Hash{}, p...)
+				q[r.Intn(len(q))][r.Intn(32)] ^= 1
+				emitR(t, a.root(t), n, a.leaves[n], q, "flipped")
+				emitR(t, a.root(t), n, a.leaves[n], p[:len(p)-1], "truncated")
+			}
+			emitR(t, a.root(t), n, a.leaves[n], append(append([]tlog.Hash{}, p...), tlog.Hash(witnessGarbageHash(r))), "overlong")
+			if n+1 < t {
+				emitR(t, a.root(t), n+1, a.leaves[n], p, "wrong-index")
+			}
+		}
+		emitR(t, a.root(t), t, a.leaves[t], nil, "n=t")
 	}
 }
 
